@@ -62,7 +62,7 @@ ASSUMPTIONS = [
     "classes listed in vlib/refws.py",
     "zlib (CPython) inflates/deflates correctly; queue contents are read through WebSocketDataQueue._buffer/exception() "
     "as the repository's own tests do, and through await read() / receive() in the consumer-timing runs",
-    "VLoop/MemPipe deliver bytes and schedule tasks like a selector loop (selftest/test_engine.py); a paused transport "
+    "VLoop/MemPipe deliver bytes and schedule tasks like a selector loop (selftest/smoke_engine.py); a paused transport "
     "delivers nothing until the consumer has read",
 ]
 FILES = [
